@@ -21,8 +21,10 @@ def _norm_scenarios(cls_name):
     def gen(mod):
         from typing import Dict, List, Optional
         from adaptix._internal.type_tools import normalize_type
-        pool = [int, str, bool, List[int], List[str], Dict[str, int], Union[int, str], Union[List[str], str], Optional[int],
-                Union[int, str, bytes], Union[List[int], str], Any, object]
+        from typing import Iterable, Sequence
+        pool = [int, str, bool, bytes, range, List[int], List[str], Dict[str, int], Union[int, str], Union[List[str], str],
+                Optional[int], Union[int, str, bytes], Union[List[int], str], Any, object, Sequence[int], Iterable[str],
+                Union[int, str, None], Optional[str]]
         out = []
         for a in pool:
             for b in pool:
@@ -61,3 +63,25 @@ contract(F, "UnionSubcaseCoercerProvider._provide_coercer_norm_types", props=["C
                "member-by-type": (f"implies(returned and not py_eq(norm_src.origin, Union), exists(lambda j: 0 <= j and j < len({DA}) and "
                                   f"py_eq({ST.format(x=DA + '[j]')}, {ST.format(x='norm_src')})))")},
          scenarios=_norm_scenarios("UnionSubcaseCoercerProvider"), cover=["returned", "raised"])
+
+
+
+# ---- Optional[S] -> Optional[D]: both sides are a union of exactly one type with None -------------------------------------
+def _opt_scenarios(mod):
+    from typing import List, Optional
+    from adaptix._internal.type_tools import normalize_type
+    out = []
+    for tp in [int, Optional[int], Union[int, str], Union[int, str, None], Optional[List[int]], Union[None, int, str, bytes]]:
+        def factory(tp=tp):
+            prov = mod.OptionalCoercerProvider()
+            return mod.OptionalCoercerProvider._is_optional, {"self": prov, "norm": normalize_type(tp)}
+        out.append((repr(tp).replace("typing.", ""), factory))
+    return out
+
+
+contract(F, "OptionalCoercerProvider._is_optional", props=["C14"], params={"self": ("const", None), "norm": "sym"},
+         post={"raises-nothing": "returned",
+               # an optional is a union of None with exactly ONE other type; with more members the element-wise rule does not apply
+               "exactly-one-other": "implies(returned and truthy(result), len(norm.args) == 2)",
+               "is-union": "implies(returned and truthy(result), py_eq(norm.origin, Union))"},
+         scenarios=_opt_scenarios, cover=["returned"])
